@@ -32,9 +32,12 @@ __CPROVER_ensures(OLD(stack->size) < CBOR_MAX_STACK_SIZE ==>
                   (g_malloc_calls == OLD(g_malloc_calls) + 1 && g_last_req == sizeof(struct _cbor_stack_record) &&
                    (RET == NULL ==> g_refused)))
 __CPROVER_ensures(RET == NULL ==> (stack->top == OLD(stack->top) && stack->size == OLD(stack->size) && g_live == OLD(g_live)))
-__CPROVER_ensures(RET == NULL || (__CPROVER_is_fresh(RET, sizeof(struct _cbor_stack_record)) &&
-                                  RET->lower == OLD(stack->top) && RET->item == item && RET->subitems == subitems))
-__CPROVER_ensures(RET == NULL || (stack->top == RET && stack->size == OLD(stack->size) + 1 &&
+/* the new frame is named through stack->top (is_fresh makes THAT location a known pointer for callers that use
+ * this contract in replace mode and then look at the frame through the stack) */
+__CPROVER_ensures(RET == NULL || (__CPROVER_is_fresh(stack->top, sizeof(struct _cbor_stack_record)) &&
+                                  stack->top->lower == OLD(stack->top) && stack->top->item == item &&
+                                  stack->top->subitems == subitems && RET == stack->top))
+__CPROVER_ensures(RET == NULL || (stack->size == OLD(stack->size) + 1 &&
                                   stack->size <= CBOR_MAX_STACK_SIZE && g_live == OLD(g_live) + 1))
 __CPROVER_ensures(g_realloc_calls == OLD(g_realloc_calls) && g_free_calls == OLD(g_free_calls));
 #endif
